@@ -11,8 +11,9 @@ def card_of(i):
 
 
 class CountingSocket:
-    def __init__(self, data, limit):
+    def __init__(self, data, limit, chunks=None):
         self.data, self.pos, self.calls, self.limit = data, 0, 0, limit
+        self.chunks = list(chunks or [])      # sizes in which the bytes arrive (then one by one)
 
     def recv(self, n):
         self.calls += 1
@@ -20,8 +21,10 @@ class CountingSocket:
             raise RuntimeError('recv called too often: the receiver does not stop at end of stream')
         if self.pos >= len(self.data):
             return b''
-        out = self.data[self.pos:self.pos + 1]
-        self.pos += 1
+        m = self.chunks.pop(0) if self.chunks else 1
+        m = max(1, min(m, n))
+        out = self.data[self.pos:self.pos + m]
+        self.pos += len(out)
         return out
 
     def sendall(self, d):
@@ -114,7 +117,7 @@ def replay(c):
             for m in c['messages']:
                 mi.send_message(m)
             data = sock.data[:c['eof_at']]
-            rsock = CountingSocket(data, len(data) + 2 * len(c['messages']) + 4)
+            rsock = CountingSocket(data, len(data) + 2 * len(c['messages']) + 4, c.get('chunks'))
             rx = MessageInterface(rsock)
             got = []
             bad = []
